@@ -221,6 +221,9 @@ type Conn struct {
 	stalled  bool
 	closed   bool
 	blocked  bool // server is parked in Read with nothing to deliver
+	// reads answered with a timeout / EOF since the peer fell silent / hung up: a server that
+	// keeps reading after several of them is "open and still reading" for WaitQuiescent
+	stallTimeouts, eofReads int
 	accepted bool
 
 	out       []byte
@@ -303,11 +306,23 @@ func (c *Conn) Read(p []byte) (int, error) {
 			return n, nil
 		}
 		if c.eof {
+			c.eofReads++
+			c.cond.Broadcast()
 			c.net.Log(c.ID, KReadEOF, 0, "")
 			return 0, io.EOF
 		}
 		if c.stalled {
 			// the peer is silent for ever: time jumps to the armed deadline
+			c.stallTimeouts++
+			c.cond.Broadcast()
+			if c.stallTimeouts > 500 {
+				// a server that never gives up would spin here for ever: park it like a socket
+				// without a deadline would
+				for !c.closed {
+					c.cond.Wait()
+				}
+				return 0, net.ErrClosed
+			}
 			c.timeouts++
 			if c.armed {
 				if c.vdeadline > c.vnow {
@@ -456,6 +471,7 @@ func TimeoutError() error { return timeoutErr{} }
 func (c *Conn) EOF() {
 	c.mu.Lock()
 	c.eof = true
+	c.blocked = false // a parked reader wakes up and gets the EOF
 	c.cond.Broadcast()
 	c.mu.Unlock()
 }
@@ -464,6 +480,7 @@ func (c *Conn) EOF() {
 func (c *Conn) Stall() {
 	c.mu.Lock()
 	c.stalled = true
+	c.blocked = false // a parked reader wakes up and gets the timeout
 	c.cond.Broadcast()
 	c.mu.Unlock()
 }
@@ -498,6 +515,10 @@ func (c *Conn) WaitQuiescent() (State, error) {
 			return State{Closed: true}, nil
 		}
 		if c.blocked && len(c.inq) == 0 {
+			return State{Blocked: true}, nil
+		}
+		if len(c.inq) == 0 && (c.stallTimeouts >= 5 || c.eofReads >= 5) {
+			// the peer is gone / silent, the server was told so five times and is still reading
 			return State{Blocked: true}, nil
 		}
 		if c.orphaned() {
